@@ -143,6 +143,7 @@ def trace_oracle(summary):
 
 
 EXTRA_TARGETS = ["wvsearch"]
+evidence_extra = mc.cert_stats
 
 
 def run_case(case):
